@@ -38,6 +38,9 @@ def arg_of(a, rw):
         d = {"start": [0, 0], "count": [0, W]}
     else:
         d = dict(INVALID[c])
+        if rw == "get":
+            # reads are bounded by the current record count: keep the record dimension out of the picture
+            d["count"] = [0] + list(d["count"][1:])
     if rw == "put":
         d["vals"] = [7] * (W * max(1, abs(d["count"][0])) * 3)
     else:
@@ -46,7 +49,8 @@ def arg_of(a, rw):
 
 
 class Translator:
-    def __init__(self, rng, np, readback=True):
+    def __init__(self, rng, np, readback=True, safe=False):
+        self.safe = safe
         self.rng = rng
         self.np = np
         self.highest = 0
@@ -90,7 +94,7 @@ class Translator:
             k = c["c"]
             if k == "coll_put":
                 out.append(self.coll_step("put", c["A"]))
-                if all(v == "NC_NOERR" or True for v in c["rc"].values()):
+                if not (self.safe and any(c["A"][str(p)]["cls"] not in ("valid", "zero") for p in range(self.np))):
                     self.highest = max([self.highest] + [self.top(c["A"][str(p)]) for p in range(self.np)])
                 out += self.get_all() if self.readback and self.rng.random() < 0.5 else []
             elif k == "coll_get":
